@@ -1,11 +1,20 @@
 //! One module per property: generator + monitor + replay
 use std::collections::HashMap;
 
+pub mod c02;
+pub mod c03;
+pub mod c04;
+pub mod c06;
 pub mod c14;
+pub mod dec_common;
 
 pub fn dispatch(cmd: &str, id: &str, pos: &[String], flags: &HashMap<String, String>) -> i32 {
     use crate::run_prop;
     match id {
+        "C02" => run_prop::<c02::C02>(cmd, pos, flags),
+        "C03" => run_prop::<c03::C03>(cmd, pos, flags),
+        "C04" => run_prop::<c04::C04>(cmd, pos, flags),
+        "C06" => run_prop::<c06::C06>(cmd, pos, flags),
         "C14" => run_prop::<c14::C14>(cmd, pos, flags),
         _ => {
             eprintln!("unknown property {id}");
